@@ -21,6 +21,7 @@ META = {
         "(thorough), seeded sampling for n=4..5 incl. duplicate edges, from_.any(), internal "
         "transitions, Event() without transitions, no events. "
         "sampled cases vary the state declaration too: shared display names, States({...}), States.from_enum over an IntEnum from 0 with scalar or list final=. "
+        "Also: the graph declared in a base class with strict_states only on the subclass. "
         "distinct_nontrivial = distinct "
         "(n, edge multiset, initial set, final set, strict, extras) tuples with n>=2 states."
     ),
